@@ -592,13 +592,17 @@ fn push_utf8(out: &mut [u8; 48], at: usize, c: u32) -> usize {
 }
 
 fn check_seed<const P: usize>() {
+    let choice: [u8; P] = kani::any();
+    check_seed_with::<P>(choice)
+}
+
+fn check_seed_with<const P: usize>(choice: [u8; P]) {
     let buf: [u8; 64] = kani::any();
     let which: u8 = kani::any();
     kani::assume(which < 5);
     let len = 16 + 4 * which as usize;
     let words = len * 3 / 4;
     let m = Mnemonic { language: Language::English, buf, len };
-    let choice: [u8; P] = kani::any();
     let mut pass = String::new();
     let mut k = 0;
     while k < P {
@@ -660,9 +664,8 @@ fn check_seed<const P: usize>() {
         sl = push_utf8(&mut salt, sl, cps[i]);
         i += 1;
     }
-    kani::cover!(P == 0 || choice[0] == 1, "precomposed accent");
-    kani::cover!(P < 2 || (choice[0] == 8 && choice[1] == 7), "marks reordered across characters");
     kani::cover!(which == 2, "18 words");
+    kani::cover!(which == 4, "24 words");
     if stubs_active() {
         unsafe {
             assert!(PB_CALLS == 1, "exactly one key stretching call");
@@ -697,3 +700,33 @@ macro_rules! seed_harness {
     )*};
 }
 seed_harness! { c02_seed_p0 = 0, 28; c02_seed_p1 = 1, 28; c02_seed_p2 = 2, 28; c02_seed_p3 = 3, 28; }
+
+
+// Concrete passphrases (one query each; the entropy buffer and length stay symbolic): every palette
+// character on its own, the empty passphrase, and sequences that need canonical reordering across
+// characters. Fallback for c02_seed_pP, whose symbolic character choice did not finish within 30 min.
+macro_rules! seed_fixed_harness {
+    ($($name:ident = $p:expr, $choice:expr;)*) => {$(
+        crate::verif_harness_realfmt! {
+            #[kani::stub(pbkdf2::pbkdf2, pbkdf2_stub)]
+            #[kani::stub(crate::mnemonic::wordlist::Wordlist::word, crate::mnemonic::wordlist::Wordlist::__verif_word)]
+            #[kani::stub(crate::mnemonic::wordlist::for_language, crate::mnemonic::wordlist::__verif::__verif_for_language)]
+            #[kani::unwind(28)]
+            fn $name() { check_seed_with::<$p>($choice) }
+        }
+    )*};
+}
+seed_fixed_harness! {
+    c02_fixed_empty = 0, [];
+    c02_fixed_ascii = 1, [0];
+    c02_fixed_accent = 1, [1];
+    c02_fixed_fullwidth = 1, [2];
+    c02_fixed_ligature = 1, [3];
+    c02_fixed_enclosed = 1, [4];
+    c02_fixed_astral = 1, [5];
+    c02_fixed_mark = 2, [0, 6];
+    c02_fixed_reorder = 3, [0, 6, 7];
+    c02_fixed_compat_reorder = 2, [8, 7];
+    c02_fixed_hangul = 1, [9];
+    c02_fixed_mixed = 3, [2, 1, 3];
+}
